@@ -2,7 +2,7 @@
    stated about BatchModel (model of src/calcHermesBatch/calchermesbatch.go and of the batch
    reader / -lines filter of src/hermes2go/hermes_main.go).  Only statements, each closed by
    [exact lemma], examples by computation, and Print Assumptions. *)
-From Coq Require Import ZArith List Bool.
+From Coq Require Import ZArith List Bool Permutation.
 From Hermes Require Import BatchModel BatchProofs.
 Import ListNotations.
 Open Scope Z_scope.
@@ -52,6 +52,19 @@ Theorem C17_end_to_end : forall (B : nat) (file : list Z) (K : Z), (2 <= B)%nat 
     executed_all (partition L K) lines = Some (indexed 0 lines).
 Proof. exact end_to_end. Qed.
 
+(* order of the command-line options — the simulator consumes its options left to right; for every command
+   line that carries each option at most once, the parsed batch lines, line range, concurrency, log switch,
+   module and working directory do not depend on the order in which the options are written ... *)
+Theorem C17_options_order_independent : forall (A : Type) (o o' : list (opt A)),
+  NoDup (map opt_kind o) -> Permutation o o' -> parse_opts o = parse_opts o'.
+Proof. exact options_order_lemma. Qed.
+
+(* ... and a command line with -batch f and -lines a-b anywhere among its options executes exactly the range *)
+Theorem C17_range_any_option_order : forall (A : Type) (opts : list (opt A)) d lines a b,
+  NoDup (map opt_kind opts) -> In (OBatch d lines) opts -> In (OLinesRange a b) opts ->
+  cmd_executed opts = executed (a, b) lines.
+Proof. exact cmd_range_lemma. Qed.
+
 (* the hypotheses are needed (model-level witnesses, replayed on the real tools by the check):
    - a file ending in an unterminated lone '\r' ("a\n\r"): the calculator counts 2, the simulator keeps 1;
    - reads of one byte ("abc" | "\r" | "\n" with B = 1 after the first read): the line is lost. *)
@@ -78,3 +91,5 @@ Print Assumptions C17_each_line_in_one_range.
 Print Assumptions C17_count.
 Print Assumptions C17_count_any_bytes.
 Print Assumptions C17_end_to_end.
+Print Assumptions C17_options_order_independent.
+Print Assumptions C17_range_any_option_order.
